@@ -6,6 +6,14 @@ import os
 HERE = os.path.dirname(os.path.dirname(os.path.abspath(__file__)))
 
 CHECKS = {
+    'C20': dict(
+        engine='value-gen', category='exploration', design='4/C20',
+        technique='recording experimenter between every two wrapper layers + per-wrapper algebraic relation monitors against independent oracles',
+        text=('~4800 random wrapper stacks (depth 1..3) per quick run over BBOB(24), Branin, Hartmann, SimpleKD, DTLZ/ZDT/WFG bases: '
+              'every trial completed with the statement metric names, parameters deep-equal to a snapshot, problem_statement by value, '
+              'inner call exactly once at the oracle-predicted point, outcome = documented transform, infeasibility marks survive, '
+              'seeded noise reproducible, batch == one-by-one.'),
+        note='Base references: direct BBOB/optproblems calls, Branin/Hartmann re-implemented from published formulae. Unseeded noise not tested.'),
     'C04': dict(
         engine='sched', category='exploration', design='4/C04',
         technique='controlled thread scheduler (bounded-preemption DFS + random) over real servicer threads; offline check of each observed outcome against all serial orders up to trial-id bijection; free-running stress judged by conservation invariants',
